@@ -77,6 +77,9 @@ type Cfg struct {
 	Kind    Kind            `json:"kind"`
 	HTTP    int             `json:"http"` // 1 or 2
 	ReqMode memhttp.ReqMode `json:"req_mode"`
+	// Chunk: the transport hands over request and response bodies in reads of
+	// at most this many bytes (0 = whatever the reader asks for).
+	Chunk int `json:"chunk,omitempty"`
 }
 
 func (c Cfg) String() string {
@@ -84,7 +87,34 @@ func (c Cfg) String() string {
 	if c.JSON {
 		codec = "json"
 	}
+	if c.Chunk > 0 {
+		return fmt.Sprintf("%s/%s/%s/%s/h%d/%s/chunk%d", c.Proto, codec, c.Comp, c.Kind, c.HTTP, c.ReqMode, c.Chunk)
+	}
 	return fmt.Sprintf("%s/%s/%s/%s/h%d/%s", c.Proto, codec, c.Comp, c.Kind, c.HTTP, c.ReqMode)
+}
+
+// chunkRC limits every Read of the wrapped body to n bytes (short reads are
+// always legal for an io.Reader; real transports produce them at frame and
+// buffer boundaries).
+type chunkRC struct {
+	io.ReadCloser
+	n int
+}
+
+func (c chunkRC) Read(p []byte) (int, error) {
+	if len(p) > c.n {
+		p = p[:c.n]
+	}
+	return c.ReadCloser.Read(p)
+}
+
+// ChunkBodies makes tr hand over both bodies in reads of at most n bytes.
+func ChunkBodies(tr *memhttp.Transport, n int) {
+	if n <= 0 {
+		return
+	}
+	tr.WrapRespBody = func(rc io.ReadCloser) io.ReadCloser { return chunkRC{rc, n} }
+	tr.WrapReqBody = func(rc io.ReadCloser) io.ReadCloser { return chunkRC{rc, n} }
 }
 
 // Tags are the deviation tags used by known-finding signatures.
